@@ -104,10 +104,23 @@ func (c *Ctx) SendSites(rel string) []SendSite {
 	lift = func(s SendSite, d int) {
 		ch := strip(s.Chan)
 		p, isParam := ch.V.(*ssa.Parameter)
-		if v := strip(s.Val); !(isParam && p.Parent() == s.Fn) && v != nil && v.Op == "param" && s.Fn.Parent() != nil {
-			// a local closure that sends its parameter: the send is looked at where the closure is called
+		if v := strip(s.Val); !(isParam && p.Parent() == s.Fn) && v != nil && (v.Op == "param" || ParamLike()(v, nil)) && (s.Fn.Parent() != nil || c.outermost(s.Fn) != s.Fn) {
+			// a closure, or a phase of one routine (single caller), that sends its parameter: the send is looked at where it is called
 			if vp, ok := v.V.(*ssa.Parameter); ok && vp.Parent() == s.Fn {
 				ch, p, isParam = v, vp, true
+			} else if v.Op != "param" {
+				// the parameter's spill cell
+				al := v.Cell
+				if al == nil {
+					al, _ = v.V.(*ssa.Alloc)
+				}
+				if al != nil {
+					for _, pp := range s.Fn.Params {
+						if pp.Name() == al.Comment {
+							ch, p, isParam = &X{Op: "param", Name: pp.Name(), V: pp}, pp, true
+						}
+					}
+				}
 			}
 		}
 		if d < 2 && ch.Op == "param" && isParam && p.Parent() == s.Fn {
